@@ -134,8 +134,11 @@ let () =
            let oc = match o with OOk -> "ok" | OErr k -> "err:" ^ string_of_int (int_of_nat k) | OPanic -> "panic" in
            let stages = Stdlib.List.map (fun l -> Printf.sprintf "in=%s out=%s err=%s det=%s argv=%s"
                (show_r l.l_in) (show_r l.l_out) (show_r l.l_err) (b2s l.l_detached) (enc_argv l.l_argv)) ls in
-           print_endline (String.concat " | " ((Printf.sprintf "outcome=%s n=%d data=%s" oc (Stdlib.List.length ls)
-             (match data with None -> "none" | Some d -> enc_units d)) :: stages)))
+           (* which command's status join / capture report: status k = k *)
+           let jr = (if mode = "comm" then pcapture else pjoin) fails p (fun k -> n_of_int (int_of_nat k)) in
+           let js = match jr with JPanic -> "panic" | JErr k -> "err:" ^ string_of_int (int_of_nat k) | JStatus s -> "of:" ^ string_of_int (int_of_n s) in
+           print_endline (String.concat " | " ((Printf.sprintf "outcome=%s n=%d data=%s status=%s" oc (Stdlib.List.length ls)
+             (match data with None -> "none" | Some d -> enc_units d) js) :: stages)))
       | ["c12"; kind; det; held] ->
         (* held: per stage the streams whose parent end is held, e.g. "0.1,-,1" *)
         let open DropOrder in
